@@ -70,11 +70,17 @@ func simTaskBegin(kind string, id int64) {
 // simGo starts a goroutine; under simulation its start is a schedule point of
 // its own (nothing of f has run yet when the spawner goes on).
 func simGo(f func()) {
+	// numbered in program order by the spawner, so that goroutines started in a
+	// row are told apart by something that does not depend on which of them
+	// reaches its first statement first
+	n := simGoSeq.Add(1)
 	go func() {
-		simYield("go.start")
+		simYield(fmt.Sprintf("go.start#%d", n))
 		f()
 	}()
 }
+
+var simGoSeq atomic.Int64
 
 func simTaskEnd() {
 	if h := simHooks.Load(); h != nil && h.TaskEnd != nil {
